@@ -9,13 +9,14 @@ RULE = ("RIB populations built from nested and sibling prefix families (random w
         "store's stride boundaries, host routes), 2-4 peers (registered with/without remote AS, unregistered), active / withdrawn / session-lost "
         "routes, a share of cases with multicast routes; 4-10 GET queries per case over the parameter grammar (include, details, select/discard "
         "with as_path / peer_as / community, filter_op, sort, format; valid, invalid, duplicated, unknown, bracket and percent-encoding quirks; "
-        "configured limits); a case is non-trivial when at least one answer is a 200 with a non-empty section; distinct = distinct case text")
+        "configured limits; in ~45% of the cases 1-3 reconfigurations of the limits while the API object exists, each followed by a "
+        "moreSpecifics query around the new limit); a case is non-trivial when at least one answer is a 200 with a non-empty section; distinct = distinct case text")
 TRUSTED_BASE = [
     "Coq 8.16.1 kernel (coqc; coqchk in thorough); no native_compute",
     "extraction with ExtrOcamlBasic only; OCaml driver oracle/{conv,eng_ribquery,eng_ribqueryx,oracle}.ml",
     "Rust harness /verif/harness engines `ribquery` / `ribqueryx` (one implementation run; the oracle of ribqueryx expects the model's token where a recorded finding "
     "class explains a departure from the property, so any other disagreement is examined first): real RibUnitRunner::process_update fed by real bgp_tcp_in process_update on hand-made UPDATE bytes, "
-    "real PrefixesApi::process_request built by PrefixesApi::new (facade rotonda::verif::ribquery, feature verif-hooks), hyper Request/Response in process",
+    "real PrefixesApi::process_request built by PrefixesApi::new over the runner's own Arc<ArcSwap<QueryLimits>> (facade rotonda::verif::ribquery, feature verif-hooks; op R stores new limits into that cell as RibUnitRunner::run does on GateStatus::Reconfiguring - the run loop itself is not executed), hyper Request/Response in process",
     "modelled, not verified: src/units/rib_unit/http/{request,response,types}.rs, Rib::match_prefix, QueryLimits, src/http.rs query parameter helpers; "
     "rotonda-store 0.4.1 is modelled as a finite map + withdrawn-id set, its exact/less-specific answers as set comprehensions, its more-specifics "
     "iterator as the node-local procedure of NodeMoreSpecificChildIter; url::form_urlencoded as in C20; routecore/inetnum text parsers for AS numbers and communities",
@@ -226,6 +227,20 @@ def gen_case(rng, i):
         else:
             tok = ptok(q, v6)
         queries.append("Q %d %s %s" % (6 if v6 else 4, tok, gen_query_string(rng, clean=rng.chance(60))))
+    # reconfigurations while the API object exists (op R: the new limits go into the cell the runner shares with its
+    # PrefixesApi, the API is not rebuilt), each followed by a moreSpecifics query whose length lies around the new limit:
+    # the answer must follow the limits in force (C11_limit_is_current), both when they are tightened and when relaxed
+    if rng.chance(45):
+        for _ in range(rng.range(1, 3)):
+            p = rng.choice(pool)
+            q = p[:rng.range(0, len(p))] if rng.chance(50) else p
+            lim = max(0, min(width + 1, len(q) + rng.choice([-3, -1, 0, 0, 1, 1, 2, 6])))
+            other = rng.choice([0, 8, 19, 24])
+            r = "R %d %d" % ((other, lim) if v6 else (lim, other))
+            inc = rng.choice(["include=moreSpecifics", "include=moreSpecifics", "include=lessSpecifics,moreSpecifics",
+                              "include=moreSpecifics&filter_op=all", "include=lessSpecifics"])
+            pos = rng.range(0, len(queries))
+            queries[pos:pos] = [r, "Q %d %s %s" % (6 if v6 else 4, ptok(q, v6), inc)]
     # some queries in the middle of the population, most at the end
     cut = rng.range(len(pop) // 2, len(pop))
     early = queries[:rng.below(3)]
@@ -276,6 +291,8 @@ def classify(case, out):
         ks.append("case:multicast")
     if case.startswith("L "):
         ks.append("case:limits-configured")
+    if ";R " in case:
+        ks.append("case:limits-reconfigured")
     return ks
 
 
@@ -295,6 +312,11 @@ def corpus():
         "P 0 65001;A 0 0 0a000000/7 1 65001 -;A 0 0 0a000000/9 2 65001 -;Q 4 0a000000/7 include=moreSpecifics;Q 4 0a000000/8 include=moreSpecifics;Q 4 0a000000/7 include=lessSpecifics;Q 4 0a000000/7 -",
         "L 16 32;P 0 65001;A 0 1 20010db8000000000000000000000000/32 1 65001 -;A 0 1 20010db8000100000000000000000000/48 2 65001 -;"
         "Q 6 20010db8000000000000000000000000/32 include=moreSpecifics;Q 6 20010db8000000000000000000000000/31 include=moreSpecifics;Q 6 20010db8000000000000000000000000/31 include=lessSpecifics",
+        # limits changed while the API object exists (reconfiguration): tightened, then relaxed; the answer follows the limits in force
+        "P 0 65001;A 0 0 0a000000/8 1 65001 -;A 0 0 0a000000/9 2 65001 -;Q 4 0a000000/8 include=moreSpecifics;R 16 19;Q 4 0a000000/8 include=moreSpecifics;"
+        "Q 4 0a000000/16 include=moreSpecifics;Q 4 0a000000/8 include=lessSpecifics;R 4 19;Q 4 0a000000/8 include=moreSpecifics;Q 4 08000000/5 include=moreSpecifics;Q 4 00000000/3 include=moreSpecifics",
+        "L 0 0;P 0 65001;A 0 1 20010db8000000000000000000000000/32 1 65001 -;A 0 1 20010db8000100000000000000000000/48 2 65001 -;Q 6 20010db8000000000000000000000000/32 include=moreSpecifics;"
+        "R 0 48;Q 6 20010db8000000000000000000000000/32 include=moreSpecifics;Q 6 20010db8000100000000000000000000/48 include=moreSpecifics;R 0 32;Q 6 20010db8000000000000000000000000/32 include=moreSpecifics",
         # parameter handling
         "P 0 65001;A 0 0 0a000000/8 1 65001 -;Q 4 0a000000/8 foo=1;Q 4 0a000000/8 include=lessSpecifics&include=moreSpecifics;Q 4 0a000000/8 select=1;Q 4 0a000000/8 select[foo]=1;"
         "Q 4 0a000000/8 select]peer_as=65001;Q 4 0a000000/8 format=dump;Q 4 0a000000/8 format=xml;Q 4 0a000000/8 details=communities&sort=/prefix;Q 4 0a000000/8 filter_op=both;"
